@@ -150,6 +150,37 @@ func reentrant(r *run.R) {
 		}
 	}
 	r.Require("flap_delivered_between_scan_and_selection", 2)
+	// a decaying tag's Close fails on the full close queue (127 never fills it: control)
+	for _, fillers := range []int{127, 128, 140} {
+		caseID := fmt.Sprintf("reentrant/failed-decaying-tag-close/fillers%d", fillers)
+		if !r.Want(caseID) {
+			continue
+		}
+		var reached bool
+		var totalA, totalB int
+		var closed []int
+		var log []string
+		b := run.Bubble(r.T, func(*testing.T) { reached, totalA, totalB, closed, log = failedTagClose(fillers) })
+		r.Eval(1)
+		detail := map[string]any{"log": log, "total_of_peer_with_the_closed_tag": totalA, "total_of_peer_tagged_10": totalB, "peers_closed_by_the_trim": closed}
+		if r.BubbleFailed(b, "reentrant", caseID, "the manager deadlocked", detail) {
+			continue
+		}
+		if reached {
+			r.Count("decaying_tag_close_failed_on_a_full_queue", 1)
+			r.Nontrivial(caseID)
+		} else {
+			r.Count("decaying_tag_close_succeeded_with_the_decayer_parked", 1)
+		}
+		// "a peer's value is the sum of its tags as the delivered tag operations imply": bump 30, then three
+		// decay rounds of -10 (or a removal by the close): nothing of it may be left after four intervals
+		if totalA != 0 || totalB != 10 {
+			r.Violation("tags:total-differs/reentrant:failed-decaying-tag-close", caseID, fmt.Sprintf("after Close of the decaying tag (error: %v) and four decay intervals the peer bumped by 30 (-10 per interval) has total %d, the peer tagged 10 has %d", reached, totalA, totalB), detail)
+		} else if len(closed) != 1 || closed[0] != 5 {
+			r.Violation("trim:closed-higher-valued-peer/reentrant:failed-decaying-tag-close", caseID, fmt.Sprintf("the trim closed peers %v; the eligible peer with the lowest value (0) is p5, p6 has 10", closed), detail)
+		}
+	}
+	r.Require("decaying_tag_close_failed_on_a_full_queue", 1)
 }
 
 // concurrent runs the concurrent histories (and only those, with reduced counts, in the race pass).
